@@ -395,9 +395,9 @@ CONFLICTS = ["none", "dtype", "unit", "definition", "unconvertible", "uncertaint
 
 @obligation("C13", "planted_conflict", shards=8, budget={"quick": 400, "thorough": 1200},
             expect=["merged", "raised"],
-            bounds="fixed two-level trees dest/src = {a{p, q}, b{p}, p0, p1}; one conflict kind per shard (none, dtype, unit, definition, unconvertible value, "
+            bounds="fixed trees dest/src = {a{p, q}, b{p, deep{}}, p0, p1}; one conflict kind per shard (none, dtype, unit, definition, unconvertible value, "
                    "uncertainty, value_origin, child Section of the same name but another type) planted at a symbolic position (any of the five Property "
-                   "pairs / the two child Section pairs); src children in symbolic order; strict on/off")
+                   "pairs / the two child Sections or the Section two levels down); src children in symbolic order; strict on/off")
 def planted_conflict_ob(v):
     """A conflict at any depth and sibling position makes merge raise ValueError and change nothing (earlier siblings are not merged first)."""
     import odml
@@ -408,20 +408,23 @@ def planted_conflict_ob(v):
         root = odml.Section(name=rootname, type="t")
         a = odml.Section(name="a", type="t", parent=root)
         b = odml.Section(name="b", type="t", parent=root)
+        deep = odml.Section(name="deep", type="t", parent=b)
         props = [odml.Property(name="p", values=[1], parent=a, dtype="int"),
                  odml.Property(name="q", values=[2], parent=a, dtype="int"),
                  odml.Property(name="p", values=[3], parent=b, dtype="int"),
                  odml.Property(name="p0", values=[4], parent=root, dtype="int"),
                  odml.Property(name="p1", values=[5], parent=root, dtype="int")]
-        return root, [a, b], props
+        return root, [a, b, deep], props
     dest, dsecs, dprops = tree("dest")
     src, ssecs, sprops = tree("src")
     # source values differ so that every pair has something to gain
     for i, prop in enumerate(sprops):
         prop.values = [10 + i]
     if kind == "other-type-section":
-        where = v.choice("where", 2)
+        where = v.choice("where", 3)       # a direct child, a later direct child, a Section two levels down
         ssecs[where].type = "u"
+        if v.bool("src_definition"):
+            src.definition = "filled before the clash is reached"
     elif kind != "none":
         where = v.choice("where", 5)
         dp, sp = dprops[where], sprops[where]
